@@ -109,7 +109,8 @@ func (client *Client) Start() (err error, retry bool) {
 		NodeId:       client.nodeId,
 	}
 
-	sMtuChan := make(chan uint64)
+	// Buffered, because nobody receives any more if the session is established right after the timeout below.
+	sMtuChan := make(chan uint64, 1)
 	stageHandlerStages := []stages.StageSetup{
 		{
 			Stage: &stages.ContactStage{},
@@ -144,6 +145,16 @@ func (client *Client) Start() (err error, retry bool) {
 	case <-time.After(15 * time.Second):
 		err = fmt.Errorf("establishing an exchangable connection timed out")
 		retry = true
+
+		// This attempt's connection is given up with everything attached to it. The next Start dials again instead of
+		// trying another handshake on the stale connection, which could never succeed.
+		_ = client.stageHandler.Close()
+		_ = client.messageSwitch.Close()
+		if client.connCloser != nil {
+			_ = client.connCloser.Close()
+		}
+		client.stageHandler = nil
+		client.messageSwitch = nil
 		return
 
 	case sMtu := <-sMtuChan:
